@@ -264,6 +264,14 @@ func runC06(c c06Case) *vh.Outcome {
 		return o
 	}
 
+	// transparency: with distinct parties, everybody taking part and every frame delivered, the session succeeds whatever the map
+	// (it does under the identity map - C01/C04/C13 - so a failure here is the translation's)
+	for _, n := range partNodes {
+		if r := info.Results[int(n)]; r != "ok" {
+			o.Fail = vh.Failf("C06/session-failed/"+path, "%s by nodes %v (map %v, silent=%v): every selected node took part, they represent distinct parties and every frame was delivered, yet node %d ended with %q", c.Op, partNodes, membership, c.Silent, n, r)
+			return o
+		}
+	}
 	for _, e := range events {
 		if e.Session != sess {
 			continue
